@@ -877,6 +877,28 @@ where
                         }
                         _ => vec![],
                     };
+                    // inherited members
+                    interface.extends.iter().for_each(|parent| {
+                        if let Some(ident) = parent.expr.as_ident() {
+                            match self.resolve_indexed_access(
+                                &TsType::TsTypeRef(TsTypeRef {
+                                    type_name: TsEntityName::Ident(ident.clone()),
+                                    type_params: parent.type_args.clone(),
+                                    span: DUMMY_SP,
+                                }),
+                                index,
+                            ) {
+                                Some(TsType::TsUnionOrIntersectionType(
+                                    TsUnionOrIntersectionType::TsUnionType(TsUnionType {
+                                        types,
+                                        ..
+                                    }),
+                                )) => properties.extend(types),
+                                Some(ty) => properties.push(Box::new(ty)),
+                                None => {}
+                            }
+                        }
+                    });
                     if properties.len() == 1 {
                         Some((*properties.remove(0)).clone())
                     } else {
